@@ -14,6 +14,7 @@ its result, so none of the theorems needs a side condition on the run.
 -/
 import JanetModel.Table.Pow2
 import JanetModel.Table.StructLemmas
+import JanetModel.Table.StructBuild
 import JanetModel.Seq.BufOps
 
 namespace JanetModel.Props.C04
@@ -614,6 +615,140 @@ example : certToStruct (fun k => 7 * k) (run (fun k => 7 * k) (Table.init 0)
     [.put (.key 1) 5, .put (.key 9) 6, .put (.key 17) 7, .remove 9, .put (.key 4) 3])
     ((run (fun k => 7 * k) (Table.init 0)
     [.put (.key 1) 5, .put (.key 9) 6, .put (.key 17) 7, .remove 9, .put (.key 4) 3]).toStruct (fun k => 7 * k) id) = true := by decide
+
+/-! ## Session 4 — `janet_struct_put_ext` establishes the struct invariant; conversions for all inputs
+
+The certificate of session 3 is no longer needed for conversions: the robin-hood insertion loop keeps `DInv` / no
+tombstone whatever its comparisons decide, provided the inserted key is not yet stored and `janet_compare` separates
+distinct keys (`RankInj`; then the `status == 0` branch cannot fire).  `table/to-struct`, `struct/with-proto`, every
+level of `freeze`, `thaw` and the round trips are finite-map identities for every table / struct satisfying its
+invariant.  (Struct literals with a repeated key — the `status == 0` replace path — remain under the per-struct
+certificate.) -/
+
+/-- `janet_compare` separates distinct keys (C03's subject; the harness supplies the real ranks) -/
+def RankInj (rank : Nat → Nat) : Prop := ∀ a b, rank a = rank b → a = b
+
+/-- **`janet_struct_put_ext`**, new key: the struct under construction keeps its invariant (`BInv`: `DInv`, no
+tombstone, running count = number of live buckets) and gains exactly that entry -/
+theorem struct_put_establishes_inv (h : Nat → Nat) (rank : Nat → Nat) (hr : RankInj rank) (replace : Bool)
+    (st : StructB) (key : Nat) (v : Val) (inv : BInv h st) (hno : ∀ x, (slotAt st.data x).key ≠ some key)
+    (hv : v ≠ vNil) (hroom : st.filled < st.length) :
+    BInv h (structPut h rank replace st key v) ∧ (structPut h rank replace st key v).filled = st.filled + 1 ∧
+    (structPut h rank replace st key v).length = st.length ∧
+    ∀ k v', Ent (structPut h rank replace st key v).data k v' ↔ ((k = key ∧ v' = v) ∨ Ent st.data k v') :=
+  structPut_spec h rank hr replace st key v inv hno hv hroom
+
+/-- a fresh `janet_struct_begin(count)` satisfies the construction invariant -/
+theorem struct_begin_inv (h : Nat → Nat) (count : Nat) : BInv h (structBegin count) := BInv.begin h count
+
+/-- **`table/to-struct`, for every table satisfying the invariant**: the struct satisfies the struct invariant, has
+`length` = the table's count, no prototype, and is the same finite map -/
+theorem to_struct_spec (h : Nat → Nat) (rank : Nat → Nat) (hr : RankInj rank) (t : Table) (inv : Inv h t) :
+    SInv h (t.toStruct h rank) ∧ (t.toStruct h rank).length = t.count ∧ (t.toStruct h rank).proto = none ∧
+    (∀ k, (t.toStruct h rank).rawget h k = abs h t k) ∧
+    nLive (t.toStruct h rank).data = (t.toStruct h rank).length :=
+  let r := toStruct_spec h rank hr t inv.d inv.c.cnt
+  ⟨r.1, r.2.1, r.2.2.1, r.2.2.2.2.1, r.2.2.2.2.2⟩
+
+/-- **`struct/to-table (table/to-struct t)`**: same finite map, no prototype, table invariant — no certificate -/
+theorem struct_roundtrip_same_map (h : Nat → Nat) (rank : Nat → Nat) (hr : RankInj rank) (t : Table) (inv : Inv h t) (c : Nat) :
+    Inv h ((t.toStruct h rank).toTable h c) ∧ ((t.toStruct h rank).toTable h c).proto = none ∧
+      abs h ((t.toStruct h rank).toTable h c) = abs h t := by
+  have hs := to_struct_spec h rank hr t inv
+  have ht := struct_to_table_spec h _ hs.1 c
+  exact ⟨ht.1, ht.2.1, funext (fun k => by rw [ht.2.2 k, hs.2.2.2.1 k])⟩
+
+/-- **`struct/with-proto`** over the entries of a struct: same map, same length, the given prototype link -/
+theorem with_proto_spec (h : Nat → Nat) (rank : Nat → Nat) (hr : RankInj rank) (s : Struct) (inv : SInv h s)
+    (hl : s.length = nLive s.data) (p : Option Nat) :
+    SInv h (s.withProto h rank p) ∧ (s.withProto h rank p).proto = p ∧ (s.withProto h rank p).length = s.length ∧
+    (∀ k, (s.withProto h rank p).rawget h k = s.rawget h k) ∧
+    (s.withProto h rank p).length = nLive (s.withProto h rank p).data := by
+  have r := toStruct_spec h rank hr { count := s.length, deleted := 0, data := s.data } inv.d hl
+  rw [withProto_eq]
+  refine ⟨⟨r.1.d, r.1.nt⟩, rfl, r.2.1, ?_, r.2.2.2.2.2.symm⟩
+  intro k
+  have := r.2.2.2.2.1 k
+  rw [struct_rawget_eq_dict inv k]
+  exact this
+
+theorem fromPuts_eq_run (h : Nat → Nat) (kvs : List (KArg × Val)) :
+    fromPuts h kvs = run h (Table.init 0) (kvs.map (fun kv => Op.put kv.1 kv.2)) := by
+  unfold fromPuts run
+  rw [List.foldl_map]
+  rfl
+
+theorem specStep_puts (t : Table) (m : Nat → Val) :
+    ((putsOf t).map (fun kv => Op.put kv.1 kv.2)).foldl specStep m = (liveOf t.data).foldl updKV m := by
+  unfold putsOf
+  generalize liveOf t.data = l
+  induction l generalizing m with
+  | nil => rfl
+  | cons a rest ih =>
+    simp only [List.map_cons, List.foldl_cons]
+    rw [ih]
+    congr 1
+    unfold updKV
+    cases a.key with
+    | none => rfl
+    | some k => rfl
+
+/-- a fresh `@{}` filled by `put` with the entries of `t` in iteration order (boot.janet `walk-dict`, the `temp-tab` of
+`freeze`, `tabseq [[k v] :pairs t] k v`): table invariant, no prototype, the same finite map -/
+theorem fromPuts_putsOf_spec (h : Nat → Nat) (t : Table) (inv : Inv h t) :
+    Inv h (fromPuts h (putsOf t)) ∧ (fromPuts h (putsOf t)).proto = none ∧ abs h (fromPuts h (putsOf t)) = abs h t := by
+  refine ⟨?_, fromPuts_proto_none h _, ?_⟩
+  · rw [fromPuts_eq_run]; exact (inv_reachable h _ _ (inv_init h 0)).1
+  · rw [fromPuts_eq_run, (inv_reachable h _ _ (inv_init h 0)).2]
+    rw [specStep_puts]
+    unfold liveOf
+    rw [foldl_updKV_filter]
+    funext k
+    by_cases ck : ∃ i, (slotAt t.data i).key = some k
+    · obtain ⟨i, hi⟩ := ck
+      rw [fold_buckets_hit inv.d _ hi]
+      exact (rawget_hit inv.d hi).symm
+    · have hno : ∀ i, (slotAt t.data i).key ≠ some k := fun i hi => ck ⟨i, hi⟩
+      rw [fold_buckets_miss _ hno, abs_init]
+      exact (rawget_miss hno).symm
+
+/-- **`thaw`** of a (flattened) table with keys / values that thaw to themselves: a new table, no prototype, same map -/
+theorem thaw_flat_spec (h : Nat → Nat) (t : Table) (inv : Inv h t) :
+    Inv h (thawFlat h t) ∧ (thawFlat h t).proto = none ∧ abs h (thawFlat h t) = abs h t :=
+  fromPuts_putsOf_spec h t inv
+
+/-- **one level of `freeze`**: an immutable struct satisfying the struct invariant with the same finite map -/
+theorem freeze_level_spec (h : Nat → Nat) (rank : Nat → Nat) (hr : RankInj rank) (t : Table) (inv : Inv h t) :
+    SInv h (freezeLevel h rank t) ∧ (∀ k, (freezeLevel h rank t).rawget h k = abs h t k) ∧
+    (freezeLevel h rank t).length = t.count := by
+  have hp := fromPuts_putsOf_spec h t inv
+  have hs := to_struct_spec h rank hr (fromPuts h (putsOf t)) hp.1
+  refine ⟨hs.1, fun k => by rw [← hp.2.2]; exact hs.2.2.2.1 k, ?_⟩
+  show ((fromPuts h (putsOf t)).toStruct h rank).length = t.count
+  rw [hs.2.1, (length_eq_card h _ hp.1).1, (length_eq_card h t inv).1]
+  have h1 := length_eq_card h _ hp.1
+  have h2 := length_eq_card h t inv
+  apply List.Perm.length_eq
+  rw [List.perm_ext_iff_of_nodup h1.2.2.1 h2.2.2.1]
+  intro k
+  rw [h1.2.2.2 k, h2.2.2.2 k, hp.2.2]
+
+/-- **`thaw (freeze t)`**: a mutable table again, with the same finite map and no prototype -/
+theorem thaw_freeze_level_same_map (h : Nat → Nat) (rank : Nat → Nat) (hr : RankInj rank) (t : Table) (inv : Inv h t) (c : Nat) :
+    Inv h (thawFlat h ((freezeLevel h rank t).toTable h c)) ∧ (thawFlat h ((freezeLevel h rank t).toTable h c)).proto = none ∧
+    abs h (thawFlat h ((freezeLevel h rank t).toTable h c)) = abs h t := by
+  have hf := freeze_level_spec h rank hr t inv
+  have ht := struct_to_table_spec h _ hf.1 c
+  have hw := thaw_flat_spec h _ ht.1
+  exact ⟨hw.1, hw.2.1, by rw [hw.2.2]; exact funext (fun k => by rw [ht.2.2 k, hf.2.1 k])⟩
+
+/-- non-vacuity: the hypotheses hold for a concrete table with colliding keys and a tombstone; the struct built from
+it has the three entries -/
+example : ((run (fun k => 7 * k) (Table.init 0)
+    [.put (.key 1) 5, .put (.key 9) 6, .put (.key 17) 7, .remove 9, .put (.key 4) 3]).toStruct (fun k => 7 * k) id).length = 3 := by decide
+example : RankInj id := fun _ _ e => e
+example : (freezeLevel (fun k => 7 * k) id (run (fun k => 7 * k) (Table.init 0)
+    [.put (.key 1) 5, .put (.key 9) 6, .put (.key 17) 7, .remove 9])).rawget (fun k => 7 * k) 17 = 7 := by decide
 
 end JanetModel.Props.C04
 
